@@ -73,7 +73,11 @@ func runC15Loop(c *sim.Ctx, t *testing.T) {
 		ids := []string{fmt.Sprintf("a%d", r), "shared"}
 		nops := 1 + c.Intn(5, "nops")
 		for i := 0; i < nops; i++ {
-			switch k := c.Intn(8, "op"); {
+			switch k := c.Intn(9, "op"); {
+			case k == 8:
+				// an operator replaces the state of the timers machine: from now on exactly the
+				// timers of that state are pending
+				plans[r] = append(plans[r], vfLoopOp{kind: "timerstate", id: fmt.Sprintf("op%d", r)})
 			case k <= 2:
 				plans[r] = append(plans[r], vfLoopOp{kind: "make", id: ids[c.Intn(2, "id")], d: vfDelays[c.Intn(len(vfDelays), "d")], n: c.Intn(4, "unheard")})
 			case k == 3:
@@ -183,6 +187,11 @@ func runC15Loop(c *sim.Ctx, t *testing.T) {
 						}
 						msg = map[string]interface{}{"to": "timers", "makeTimer": map[string]interface{}{"id": op.id, "in": op.d.String(),
 							"msg": map[string]interface{}{"to": to, "id": fmt.Sprintf("t%d.%d", r, nmsg)}}}
+					case "timerstate":
+						at := time.Now().Add(time.Hour).UTC().Format(time.RFC3339Nano)
+						msg = map[string]interface{}{"to": "captain", "update": map[string]interface{}{"timers": map[string]interface{}{"state": map[string]interface{}{
+							"node": "start", "bs": map[string]interface{}{"timers": map[string]interface{}{
+								op.id: map[string]interface{}{"Id": op.id, "Msg": map[string]interface{}{"to": "nobody", "id": op.id}, "At": at}}}}}}}
 					case "cancel":
 						msg = map[string]interface{}{"to": "timers", "cancelTimer": op.id}
 					case "flip":
